@@ -118,7 +118,8 @@ Section Invariant.
   Definition item_ok (ps : list (list Z)) (it : list Z * mat) : Prop :=
     In (fst it) src_rdms /\ mat_ok ps (fst it) (snd it).
   Definition Inv (s : rdms) : Prop :=
-    Forall (fun t => In t src_pats) (pats s) /\ Forall (item_ok (pats s)) (items s).
+    (Forall (fun t => In t src_pats) (pats s) /\ Forall (item_ok (pats s)) (items s)) /\
+    (length (pidx s) = length (pats s) /\ length (ridx s) = length (items s)).
 
   Lemma map_nth_length {X} (l : list X) d sel : length (map (fun i => nth i l d) sel) = length sel.
   Proof. apply map_length. Qed.
@@ -157,31 +158,46 @@ Section Invariant.
     apply HP. apply nth_In. apply Hs. exact Hi.
   Qed.
 
+  Lemma pkeys_length col s : Inv s -> length (pkeys A col s) = ncond A s.
+  Proof.
+    intros [_ [H _]]. unfold pkeys, ncond. destruct col; [apply map_length|exact H].
+  Qed.
+  Lemma rkeys_length col s : Inv s -> length (rkeys A col s) = length (items s).
+  Proof.
+    intros [_ [_ H]]. unfold rkeys. destruct col; [apply map_length|exact H].
+  Qed.
+
   Lemma sel_patterns_inv d sel s :
     Inv s -> sel_ok (ncond A s) sel -> (d = true \/ NoDup sel) -> Inv (sel_patterns A zero d sel s).
   Proof.
-    intros [Hp Hi] Hsel Hd. split; cbn [sel_patterns pats items].
+    intros [[Hp Hi] [L1 L2]] Hsel Hd. split; [split|split]; cbn [sel_patterns pats items pidx ridx].
     - apply Forall_map_nth; assumption.
     - rewrite Forall_forall in *. intros it Hit. apply in_map_iff in Hit as (it0 & <- & Hit0).
       destruct (Hi it0 Hit0) as [H1 H2]. split; cbn [fst snd]; [exact H1|].
       apply msel_ok; assumption.
+    - rewrite !map_length. reflexivity.
+    - rewrite map_length. exact L2.
   Qed.
 
   Lemma sel_rdms_inv sel s :
     Inv s -> Forall (fun i => i < length (items s)) sel -> Inv (sel_rdms A sel s).
   Proof.
-    intros [Hp Hi] Hsel. split; cbn [sel_rdms pats items]; [exact Hp|].
-    apply Forall_map_nth; assumption.
+    intros [[Hp Hi] [L1 L2]] Hsel. split; [split|split]; cbn [sel_rdms pats items pidx ridx]; [exact Hp| |exact L1|].
+    - apply Forall_map_nth; assumption.
+    - rewrite !map_length. reflexivity.
   Qed.
 
   Lemma reindex_inv b s : Inv s -> Inv (reindex A b s).
-  Proof. intros H. unfold reindex. destruct b; exact H. Qed.
+  Proof.
+    intros H. unfold reindex. destruct b; [|exact H]. destruct H as [[Hp Hi] [L1 L2]].
+    split; [split|split]; cbn [pats items pidx ridx]; auto. unfold zseq. rewrite map_length, seq_length. reflexivity.
+  Qed.
 
   Lemma positions_sel_ok {X} (f : X -> bool) l : Forall (fun i => i < length l) (positions f l).
   Proof. rewrite Forall_forall. intros i. apply positions_lt. Qed.
 
-  Lemma pos_each_sel_ok col vals (tuples : list (list Z)) :
-    Forall (fun i => i < length tuples) (pos_each col vals tuples).
+  Lemma pos_each_sel_ok vals (keys : list Z) :
+    Forall (fun i => i < length keys) (pos_each vals keys).
   Proof.
     unfold pos_each. rewrite Forall_forall. intros i Hi. apply in_concat in Hi as (l & Hl & Hil).
     apply in_map_iff in Hl as (v & <- & _). eapply positions_lt. exact Hil.
@@ -213,13 +229,6 @@ Section Invariant.
     - eapply Permutation_NoDup; [apply Permutation_sym; exact H|apply seq_NoDup].
   Qed.
 
-  Lemma index_of_lt col v k tuples i : index_of col v k tuples = Some i -> i < k + length tuples.
-  Proof.
-    revert k; induction tuples as [|t r IH]; intros k H; cbn in H; [discriminate|].
-    destruct (Z.eqb (colv col t) v); [injection H as <-; cbn; lia|].
-    apply IH in H. cbn. lia.
-  Qed.
-
   Definition op_ok (o : op A) : Prop :=
     match o with
     | OAppend other => Inv other
@@ -243,17 +252,15 @@ Section Invariant.
     intros HI Hok. destruct o as [col vals|col vals|col vals|col vals|idx|p|col re|col order re|other|col others|p| |];
       cbn [step].
     - (* subset_pattern *)
-      apply sel_patterns_inv; [exact HI|apply positions_sel_ok|right; apply positions_from_NoDup].
+      apply sel_patterns_inv; [exact HI| |right; apply positions_from_NoDup].
+      unfold sel_ok. rewrite <- (pkeys_length col s HI). apply positions_sel_ok.
     - (* subsample_pattern *)
       apply sel_patterns_inv; [exact HI| |left; reflexivity].
-      apply sort_nat_sel_ok. apply pos_each_sel_ok.
+      apply sort_nat_sel_ok. rewrite <- (pkeys_length col s HI). apply pos_each_sel_ok.
     - (* subset *)
-      apply sel_rdms_inv; [exact HI|].
-      pose proof (positions_sel_ok (fun t => memZ (colv col t) vals) (map fst (items s))) as H.
-      rewrite map_length in H. exact H.
+      apply sel_rdms_inv; [exact HI|]. rewrite <- (rkeys_length col s HI). apply positions_sel_ok.
     - (* subsample *)
-      apply sel_rdms_inv; [exact HI|].
-      pose proof (pos_each_sel_ok col vals (map fst (items s))) as H. rewrite map_length in H. exact H.
+      apply sel_rdms_inv; [exact HI|]. rewrite <- (rkeys_length col s HI). apply pos_each_sel_ok.
     - (* getitem *)
       destruct (forallb _ idx) eqn:Hf; [|exact HI]. apply sel_rdms_inv; [exact HI|].
       rewrite Forall_forall. rewrite forallb_forall in Hf. intros x Hx. apply Nat.ltb_lt. apply Hf. exact Hx.
@@ -269,8 +276,10 @@ Section Invariant.
       apply is_perm_facts in Hp as (_ & H1 & H2). apply reindex_inv. apply sel_patterns_inv; auto.
     - (* append *)
       destruct (tuples_eq_dec _ _) as [E|E]; [|exact HI].
-      destruct HI as [Hp Hi]. destruct Hok as [Hp' Hi']. split; cbn [pats items]; [exact Hp|].
-      apply Forall_app. split; [exact Hi|]. rewrite E. exact Hi'.
+      destruct HI as [[Hp Hi] [L1 L2]]. destruct Hok as [[Hp' Hi'] _].
+      split; [split|split]; cbn [pats items pidx ridx]; [exact Hp| |exact L1|].
+      + apply Forall_app. split; [exact Hi|]. rewrite E. exact Hi'.
+      + unfold zseq. rewrite map_length, seq_length. reflexivity.
     - (* concat *)
       cbn [op_ok] in Hok.
       assert (Hacc : forall l,
@@ -283,10 +292,12 @@ Section Invariant.
           destruct (align_to A zero col s o) as [o'|] eqn:Ha; [|discriminate].
           destruct (fold_right _ _ others) as [l'|] eqn:Hf; [|discriminate].
           injection Hl as <-. apply Forall_app. split; [|apply IH; [exact Hothers|reflexivity]].
-          destruct (align_to_inv col s o o' Ho Ha) as [[_ Hi'] E]. rewrite <- E. exact Hi'. }
+          destruct (align_to_inv col s o o' Ho Ha) as [[[_ Hi'] _] E]. rewrite <- E. exact Hi'. }
       destruct (fold_right _ _ others) as [l|]; [|exact HI].
-      destruct HI as [Hp Hi]. split; cbn [pats items]; [exact Hp|].
-      apply Forall_app. split; [exact Hi|apply Hacc; reflexivity].
+      destruct HI as [[Hp Hi] [L1 L2]].
+      split; [split|split]; cbn [pats items pidx ridx]; [exact Hp| |exact L1|].
+      + apply Forall_app. split; [exact Hi|apply Hacc; reflexivity].
+      + unfold zseq. rewrite map_length, seq_length. reflexivity.
     - (* permute *)
       destruct (is_perm_of_range _ p) eqn:Hp; [|exact HI].
       apply is_perm_facts in Hp as (_ & H1 & H2). apply sel_patterns_inv; auto.
@@ -309,7 +320,7 @@ Section Invariant.
     Inv s -> In it (items s) -> i < ncond A s -> j < ncond A s ->
     mget A (snd it) i j = mget A (snd it) j i /\ mget A (snd it) i i = Some zero.
   Proof.
-    intros [_ Hi] Hit Hli Hlj. rewrite Forall_forall in Hi. destruct (Hi it Hit) as [_ HM].
+    intros [[_ Hi] _] Hit Hli Hlj. rewrite Forall_forall in Hi. destruct (Hi it Hit) as [_ HM].
     unfold ncond in *. rewrite (HM i j Hli Hlj), (HM j i Hlj Hli), (HM i i Hli Hli).
     rewrite Nat.eqb_refl. split; [|reflexivity].
     rewrite (Nat.eqb_sym j i). destruct (Nat.eqb i j); [reflexivity|].
